@@ -314,6 +314,10 @@ def check_property(prop, tier, seed, keep=False, verbose=False):
                                  "failed": [f["id"] for f in myfail]})
             for k, notes in ur.gen.shape_changed.items():
                 print("note: %s/%s: %s" % (un, k, "; ".join(notes)))
+            for f in list(ur.failures):
+                if f["fn"] in ur.gen.raw_keys:
+                    undecided.append("%s: contract table inconsistent: refinement check %s failed (%s)" % (un, f["fn"], f["id"]))
+                    ur.failures.remove(f)
             for f in ur.failures:
                 m_loop = re.match(r"loop(\d+)\.", f.get("label") or "")
                 keyed_ok = bool(m_loop) and int(m_loop.group(1)) in ur.gen.keyed_loops.get(f["fn"], set())
